@@ -169,6 +169,6 @@ func TestInfo(t *testing.T) {
 	for _, s := range p.Scenarios {
 		sc = append(sc, s.Name)
 	}
-	b, _ := json.Marshal(map[string]any{"id": p.ID, "title": p.Title, "rule": p.Rule, "quick": p.Quick, "thorough": p.Thorough, "assume": p.Assume, "exhaust_n": p.ExhaustN, "scenarios": sc})
+	b, _ := json.Marshal(map[string]any{"id": p.ID, "title": p.Title, "rule": p.Rule, "quick": p.Quick, "thorough": p.Thorough, "assume": p.Assume, "exhaust_n": p.ExhaustN, "scenarios": sc, "require": p.Require})
 	fmt.Println(string(b))
 }
